@@ -379,7 +379,12 @@ def mon_c17(h, obs):
         if t.startswith("owner:"):
             ch, _, who = t[6:].partition("=")
             owners[ch] = who
+    role_status = {}         # account -> status of its role record as last read back (`q obj role @x`)
     for i, st in enumerate(steps):
+        if st[0] == "q" and st[1] == "obj" and st[2] == "role" and len(st[4]) > 3:
+            m = re.search(r"status=(\S+)", st[3] or "")
+            role_status[st[4][3].lstrip("@")] = m.group(1) if m else "none"
+            continue
         if st[0] != "block" or not st[1].ok:
             continue
         b = st[1]
@@ -430,11 +435,15 @@ def mon_c17(h, obs):
                                     f"{c}.{m} about chain {chain}: {tx.signer} ({cls}) was refused with {rc.ret}, an outsider with {outsider_class[key]}: the caller got past the owner check", detail=b.op))
         # R5: an operation reserved to governance admins (or a vote) called by an account that holds an admin role record
         # without being an available admin fails — and in the same way as for an outsider
-        if tx.signer in nonadmins or cls == "outsider":
+        # (the set-up that was to take the admin's availability away can itself be refused — the random calls before it may
+        # have changed who may propose: the account counts as "no available admin" only if its role record, read back after
+        # the set-up, says so)
+        is_nonadmin = tx.signer in nonadmins and role_status.get(tx.signer) not in (None, "available", "freezing")
+        if is_nonadmin or cls == "outsider":
             key5 = (c, m, tuple(tx.args))
             if cls == "outsider" and not rc.ok:
                 outsider5[key5] = rc.ret
-            elif tx.signer in nonadmins and key5 in outsider5:
+            elif is_nonadmin and key5 in outsider5:
                 if rc.ok:
                     hits.append(Hit(f"C17/admin-operation-open-to-unavailable-admin/{c}.{m}", f"{c}.{m} called by {tx.signer}, who is no available governance admin, succeeded; an outsider is refused with {outsider5[key5]}", detail=b.op))
                 elif rc.ret != outsider5[key5]:
